@@ -20,6 +20,7 @@ import (
 
 // Ctx carries the output streams and the single PRNG every random choice derives from.
 type Ctx struct {
+	kiExtra    string // a further child of the next xmlenc element's KeyInfo that the decrypter has no use for (RetrievalMethod URI, KeyName, …)
 	kiPrefix   string // how the next xmlenc element writes the XML-Signature namespace of its KeyInfo subtree ("" = ds)
 	mustRefuse string // oracle line for the current case if the implementation does not refuse it (xmlenc)
 	prop       string
